@@ -402,7 +402,8 @@ class Spellings(Part):
         self.tier, self.seed = tier, seed
 
     def cases(self):
-        return [{"opt": n} for n in sorted(OPTS) if OPTS[n][2] is not True and n not in ("dump-ip-map",)]
+        return [{"opt": n, "v": v} for n in sorted(OPTS) if OPTS[n][2] is not True and n not in ("dump-ip-map",)
+                for v in ("plain", "punctuated") if v == "plain" or n in ("salt", "sensitive-words", "reserved-words")]
 
     def run(self, case):
         res = Res()
@@ -410,6 +411,10 @@ class Spellings(Part):
         try:
             n = case["opt"]
             cli, key, a, b = OPTS[n]
+            if case.get("v") == "punctuated":
+                # values with characters an argument pre-processor might touch
+                a = {"salt": "site_salt-2024 x", "sensitive-words": "big_corp,seattle,a-b", "reserved-words": "keep_me,seattle-core",
+                     "log-level": a}.get(n, a)
             longname = "--" + key
             spellings = {"separate": [cli, a], "long-separate": [longname, a], "long-equals": [longname + "=" + a],
                          "abbreviated": [longname[:-2], a], "abbreviated-equals": [longname[:-2] + "=" + a]}
@@ -437,12 +442,12 @@ class Spellings(Part):
                     if got[0] != "ok" and not with_cfg:
                         res.count("spelling_not_accepted_by_parser")   # not a spelling of this parser: skip its config variant
                         break
-                    res.nt((n, sp, with_cfg))
+                    res.nt((n, sp, with_cfg, case.get("v")))
                     if got[0] != ref[0] or got[1] != ref[1]:
                         res.violation("%s|%s|%s" % ("command-line-does-not-win" if with_cfg else "spelling-changes-the-result", n, sp),
                                       "argv %r%s gives %s/%s; canonical spelling without config %s/%s" % (
                                           argv, " with config %r" % ("%s = %s" % (key, b)) if with_cfg else "", got[0],
-                                          digest_tree(got[1]), ref[0], digest_tree(ref[1])), {"opt": n, "sp": sp})
+                                          digest_tree(got[1]), ref[0], digest_tree(ref[1])), {"opt": n, "sp": sp, "v": case.get("v", "plain")})
             if "sp" not in case:
                 res.samples.append({"option": n, "spellings": sorted(spellings)})
         finally:
